@@ -44,6 +44,7 @@ func main() {
 	stubs := flag.String("stub", "internal/io/dlog/rotation.go", "files replaced by stubs from -stubdir")
 	stubdir := flag.String("stubdir", "", "directory with stub files (flattened names, / -> __)")
 	adddir := flag.String("adddir", "", "directory tree of files added to dtail packages (mirrors repo layout)")
+	adddir2 := flag.String("adddir2", "", "a second directory tree of added files")
 	hooks := flag.String("hooks", "", "comma separated function names (pkgdir.Func or pkgdir.Type.Method) that get a vrt.Hook call as first statement")
 	flag.Parse()
 	if *out == "" {
@@ -125,12 +126,16 @@ func main() {
 		}
 	}
 	// files added to dtail packages
-	if *adddir != "" {
-		filepath.Walk(*adddir, func(path string, fi os.FileInfo, err error) error {
+	for _, ad := range []string{*adddir, *adddir2} {
+		if ad == "" {
+			continue
+		}
+		ad := ad
+		filepath.Walk(ad, func(path string, fi os.FileInfo, err error) error {
 			if err != nil || fi.IsDir() || !strings.HasSuffix(path, ".go") {
 				return nil
 			}
-			rel, _ := filepath.Rel(*adddir, path)
+			rel, _ := filepath.Rel(ad, path)
 			overlay[filepath.Join(*repo, rel)] = path
 			return nil
 		})
@@ -156,18 +161,20 @@ type rewriter struct {
 	pkgDir string
 	hooks  map[string]bool
 
-	chanLen   map[*ast.CallExpr]string // "Len" / "Cap"
-	closeCall map[*ast.CallExpr]bool
-	makeChan  map[*ast.CallExpr]bool
-	rangeChan map[*ast.RangeStmt]bool
-	rangeMap  map[*ast.RangeStmt]bool
-	noHoist   map[ast.Expr]bool
-	commRecv  map[*ast.UnaryExpr]bool
-	commSend  map[*ast.SendStmt]bool
-	recv2     map[*ast.UnaryExpr]bool
-	printCall map[*ast.CallExpr]string
-	tmp       int
-	fmtName   string
+	chanLen     map[*ast.CallExpr]string // "Len" / "Cap"
+	closeCall   map[*ast.CallExpr]bool
+	makeChan    map[*ast.CallExpr]bool
+	rangeChan   map[*ast.RangeStmt]bool
+	rangeMap    map[*ast.RangeStmt]bool
+	noHoist     map[ast.Expr]bool
+	commRecv    map[*ast.UnaryExpr]bool
+	commSend    map[*ast.SendStmt]bool
+	recv2       map[*ast.UnaryExpr]bool
+	printCall   map[*ast.CallExpr]string
+	native      map[ast.Node]bool // channel constructs on native (foreign element) channels: left untouched
+	mixedSelect string
+	tmp         int
+	fmtName     string
 }
 
 func (r *rewriter) site(n ast.Node) ast.Expr {
@@ -190,6 +197,43 @@ func isChan(t types.Type) bool {
 	}
 	_, ok := t.Underlying().(*types.Chan)
 	return ok
+}
+
+// foreignElem reports whether a channel's element type comes from a package
+// that is not rewritten (x/crypto/ssh, os, ...): such channels are created and
+// consumed by foreign code and therefore stay native Go channels.
+func foreignElem(t types.Type) bool {
+	if t == nil {
+		return false
+	}
+	c, ok := t.Underlying().(*types.Chan)
+	if !ok {
+		return false
+	}
+	e := c.Elem()
+	for {
+		if p, ok := e.(*types.Pointer); ok {
+			e = p.Elem()
+			continue
+		}
+		break
+	}
+	n, ok := e.(*types.Named)
+	if !ok || n.Obj().Pkg() == nil {
+		return false
+	}
+	path := n.Obj().Pkg().Path()
+	if path == "os" && n.Obj().Name() == "Signal" {
+		return true // os/signal.Notify needs a native channel
+	}
+	first := path
+	if i := strings.Index(path, "/"); i >= 0 {
+		first = path[:i]
+	}
+	if !strings.Contains(first, ".") {
+		return false // standard library element types (bytes.Buffer, time.Time, ...) are dtail's own channels
+	}
+	return !strings.HasPrefix(path, "github.com/mimecast/dtail")
 }
 
 func orderedKey(t types.Type) bool {
@@ -219,13 +263,28 @@ func (r *rewriter) prepass() {
 	r.commSend = map[*ast.SendStmt]bool{}
 	r.recv2 = map[*ast.UnaryExpr]bool{}
 	r.printCall = map[*ast.CallExpr]string{}
+	r.native = map[ast.Node]bool{}
 	ast.Inspect(r.file, func(n ast.Node) bool {
+		switch v := n.(type) {
+		case *ast.ChanType:
+			if foreignElem(r.info.TypeOf(v)) {
+				r.native[v] = true
+			}
+		case *ast.UnaryExpr:
+			if v.Op == token.ARROW && foreignElem(r.info.TypeOf(v.X)) {
+				r.native[v] = true
+			}
+		case *ast.SendStmt:
+			if foreignElem(r.info.TypeOf(v.Chan)) {
+				r.native[v] = true
+			}
+		}
 		switch v := n.(type) {
 		case *ast.CallExpr:
 			if id, ok := v.Fun.(*ast.Ident); ok {
 				switch {
 				case (r.isBuiltin(id, "len") || r.isBuiltin(id, "cap")) && len(v.Args) == 1:
-					if isChan(r.info.TypeOf(v.Args[0])) {
+					if isChan(r.info.TypeOf(v.Args[0])) && !foreignElem(r.info.TypeOf(v.Args[0])) {
 						if id.Name == "len" {
 							r.chanLen[v] = "Len"
 						} else {
@@ -233,9 +292,11 @@ func (r *rewriter) prepass() {
 						}
 					}
 				case r.isBuiltin(id, "close"):
-					r.closeCall[v] = true
+					if len(v.Args) == 1 && !foreignElem(r.info.TypeOf(v.Args[0])) {
+						r.closeCall[v] = true
+					}
 				case r.isBuiltin(id, "make") && len(v.Args) >= 1:
-					if isChan(r.info.TypeOf(v.Args[0])) {
+					if isChan(r.info.TypeOf(v.Args[0])) && !foreignElem(r.info.TypeOf(v.Args[0])) {
 						r.makeChan[v] = true
 					}
 				}
@@ -254,7 +315,9 @@ func (r *rewriter) prepass() {
 		case *ast.RangeStmt:
 			t := r.info.TypeOf(v.X)
 			if isChan(t) {
-				r.rangeChan[v] = true
+				if !foreignElem(t) {
+					r.rangeChan[v] = true
+				}
 			} else if t != nil {
 				if m, ok := t.Underlying().(*types.Map); ok && orderedKey(m.Key()) && (v.Tok == token.DEFINE || v.Key == nil) {
 					r.rangeMap[v] = true
@@ -274,6 +337,39 @@ func (r *rewriter) prepass() {
 				}
 			}
 		case *ast.SelectStmt:
+			nat, virt := 0, 0
+			for _, c := range v.Body.List {
+				cc := c.(*ast.CommClause)
+				var ch ast.Expr
+				switch s := cc.Comm.(type) {
+				case *ast.SendStmt:
+					ch = s.Chan
+				case *ast.ExprStmt:
+					if u, ok := unparen(s.X).(*ast.UnaryExpr); ok {
+						ch = u.X
+					}
+				case *ast.AssignStmt:
+					if len(s.Rhs) == 1 {
+						if u, ok := unparen(s.Rhs[0]).(*ast.UnaryExpr); ok {
+							ch = u.X
+						}
+					}
+				}
+				if ch != nil {
+					if foreignElem(r.info.TypeOf(ch)) {
+						nat++
+					} else {
+						virt++
+					}
+				}
+			}
+			if nat > 0 && virt > 0 {
+				r.mixedSelect = fmt.Sprintf("%s: select mixes native (foreign element type) and virtual channels", r.fset.Position(v.Pos()))
+			}
+			if nat > 0 {
+				r.native[v] = true
+				return true
+			}
 			for _, c := range v.Body.List {
 				cc := c.(*ast.CommClause)
 				switch s := cc.Comm.(type) {
@@ -345,6 +441,9 @@ func define(lhs ast.Expr, rhs ast.Expr) ast.Stmt {
 
 func (r *rewriter) run() ([]byte, error) {
 	r.prepass()
+	if r.mixedSelect != "" {
+		return nil, fmt.Errorf("%s", r.mixedSelect)
+	}
 	// imports
 	for _, imp := range r.file.Imports {
 		p, _ := strconv.Unquote(imp.Path.Value)
@@ -400,9 +499,12 @@ func (r *rewriter) run() ([]byte, error) {
 		}
 		switch n := c.Node().(type) {
 		case *ast.ChanType:
+			if r.native[n] {
+				break
+			}
 			c.Replace(&ast.StarExpr{X: &ast.IndexExpr{X: vrtSel("Chan"), Index: n.Value}})
 		case *ast.UnaryExpr:
-			if n.Op != token.ARROW {
+			if n.Op != token.ARROW || r.native[n] {
 				break
 			}
 			switch {
@@ -414,6 +516,9 @@ func (r *rewriter) run() ([]byte, error) {
 				c.Replace(method(n.X, "Recv", r.site(n)))
 			}
 		case *ast.SendStmt:
+			if r.native[n] {
+				break
+			}
 			if r.commSend[n] {
 				c.Replace(&ast.ExprStmt{X: method(n.Chan, "SendCase", n.Value)})
 			} else {
@@ -456,6 +561,9 @@ func (r *rewriter) run() ([]byte, error) {
 				}
 			}
 		case *ast.SelectStmt:
+			if r.native[n] {
+				break
+			}
 			var lbl *ast.LabeledStmt
 			if l, ok := c.Parent().(*ast.LabeledStmt); ok {
 				lbl = l
